@@ -42,6 +42,8 @@ func runC03(w *World, r *Report) {
 	checkWiring(w, r, "C03/WIRING", map[string]bool{"Atomic": true, "CleanupOnFail": true, "KeepHistory": true, "WaitForJobs": true, "WaitStrategy": true, "Force": true, "Recreate": true, "Timeout": true})
 	checkCarried(w, r, "C03/WIRING", []string{"Atomic"})
 	c03ErrSwallowed(w, r)
+	r.Rule("C03/ERR-COLLECT", "in pkg/action and pkg/kube a list of errors that was filled or received from a call reaches a success return only over an edge on which it is empty (or is itself handed on)", 4)
+	errCollect(w, r, "C03/ERR-COLLECT", []string{"pkg/action", "pkg/kube"}, nil)
 	c03OldStaysAndCleanup(w, r, ef)
 	c03Atomic(w, r, ef)
 }
